@@ -37,6 +37,7 @@ type vconn struct {
 	yield      bool // every Read is a scheduling point (concurrency harnesses)
 	blockAtEnd bool // an idle client: Read at the end of the script blocks until the connection is closed
 	closedFlag bool
+	blockWrite bool // a client that stopped reading: Write blocks until the connection is closed
 	closeErr   bool // Close closes the socket but reports an error (as tls.Conn does when the close_notify alert cannot be sent)
 }
 
@@ -99,6 +100,10 @@ func (c *vconn) Write(p []byte) (int, error) {
 	}
 	n := c.writes
 	c.writes++
+	if c.blockWrite {
+		vsymAwait(&c.closedFlag)
+		return 0, errVconnClosed
+	}
 	if c.failWrite >= 0 && n >= c.failWrite {
 		return 0, errVconnReset
 	}
@@ -112,7 +117,7 @@ func (c *vconn) Write(p []byte) (int, error) {
 func (c *vconn) Close() error {
 	c.closes++
 	vsymSignal(&c.closed) // a real net.Conn may be closed from another goroutine
-	if c.blockAtEnd {
+	if c.blockAtEnd || c.blockWrite {
 		vsymSignal(&c.closedFlag)
 	}
 	if c.closeErr {
